@@ -283,3 +283,73 @@ Proof.
   induction chans as [|c chans IH]; intros [|m ms] [|s ss] [|v x] H1 H2 H3; cbn in *; try discriminate; try reflexivity.
   f_equal. apply IH; congruence.
 Qed.
+
+(* ---------- review items: per-key pass-through; the executable (reduced) run ---------- *)
+(* with norm_obs ON, a channel of a key that is not normalised is returned unchanged *)
+Lemma per_key_passthrough p : forall chans ms ss x ch,
+  length ms = length chans -> length ss = length chans -> length x = length chans ->
+  nth ch chans true = false -> nth ch (norm_vec p true chans ms ss x) 0 = nth ch x 0.
+Proof.
+  induction chans as [|c chans IH]; intros [|m ms] [|s ss] [|v x] ch H1 H2 H3 Hc; cbn in *; try discriminate; try reflexivity.
+  destruct ch as [|ch]; cbn in *; [subst c; reflexivity|]. apply IH; congruence.
+Qed.
+
+(* ... and a channel of a normalised key gets the clipped standardised value with ITS statistics and hint *)
+Lemma per_key_normalised p : forall chans ms ss x ch,
+  length ms = length chans -> length ss = length chans -> length x = length chans -> (ch < length chans)%nat ->
+  nth ch chans false = true ->
+  nth ch (norm_vec p true chans ms ss x) 0
+  = normalize_s (nth ch x 0) (r_mean (nth ch ms (rms_init eps_default))) (nth ch ss 0) (p_clip_obs p).
+Proof.
+  induction chans as [|c chans IH]; intros [|m ms] [|s ss] [|v x] ch H1 H2 H3 Hlt Hc; cbn in *; try discriminate; try lia.
+  destruct ch as [|ch]; cbn in *; [subst c; reflexivity|]. apply IH; try congruence. lia.
+Qed.
+
+(* the return accumulator's closed form for ANY reduction that preserves the value (Qred in the executable run,
+   the identity in the specification run), up to == *)
+Lemma vn_returns_closed_form_red upd (red : Q -> Q) p h :
+  (forall x, red x == x) ->
+  forall st i acc,
+  v_training st = true -> Forall (fun o => wf_op (length (v_returns st)) o /\ forall t no nr, o <> OSet t no nr) h ->
+  (i < length (v_returns st))%nat ->
+  nth i (v_returns st) 0 == disc (p_gamma p) acc ->
+  nth i (v_returns (vn_run upd red p st h)) 0 == disc (p_gamma p) (rewards_since i acc h).
+Proof.
+  intros Hred. induction h as [|o h IH]; intros st i acc Ht Hall Hi Hacc; cbn [vn_run fold_left rewards_since]; [exact Hacc|].
+  fold (vn_run upd red p (vn_op upd red p st o) h).
+  inversion Hall as [|? ? [Hw Hns] Hrest]; subst.
+  destruct o as [obs|obs rews dones|t no nr]; [| |exfalso; eapply Hns; reflexivity].
+  - apply IH; cbn [vn_op v_training v_returns]; try assumption.
+    + rewrite map_length. exact Hrest.
+    + rewrite map_length. exact Hi.
+    + assert (Z0 : forall (l : list Q) k, nth k (map (fun _ : Q => 0) l) 0 = 0) by (induction l; intros [|k]; cbn; auto).
+      rewrite Z0. reflexivity.
+  - destruct Hw as [Hr Hd].
+    assert (Hlen : length (v_returns (vn_op upd red p st (OStep obs rews dones))) = length (v_returns st)).
+    { cbn [vn_op v_returns]. rewrite Ht. unfold restart, acc_returns.
+      rewrite map_length, combine_length, map_length, combine_length. lia. }
+    assert (Hnth : nth i (v_returns (vn_op upd red p st (OStep obs rews dones))) 0
+                   = if nth i dones false then 0 else red (nth i (v_returns st) 0 * p_gamma p + nth i rews 0)).
+    { cbn [vn_op v_returns]. rewrite Ht. unfold restart.
+      rewrite (nth_map_combine _ _ dones i 0 false 0) by (unfold acc_returns; rewrite ?map_length, ?combine_length; lia).
+      cbn [fst snd]. destruct (nth i dones false); [reflexivity|].
+      unfold acc_returns. rewrite (nth_map_combine _ _ rews i 0 0 0) by lia. reflexivity. }
+    destruct (nth i dones false) eqn:Ed.
+    + apply IH.
+      * cbn [vn_op v_training]. exact Ht.
+      * rewrite Hlen. exact Hrest.
+      * rewrite Hlen. exact Hi.
+      * rewrite Hnth. reflexivity.
+    + apply IH.
+      * cbn [vn_op v_training]. exact Ht.
+      * rewrite Hlen. exact Hrest.
+      * rewrite Hlen. exact Hi.
+      * rewrite Hnth, disc_snoc, Hred, Hacc. reflexivity.
+Qed.
+
+Lemma vn_returns_closed_form_executable p h st i acc :
+  v_training st = true -> Forall (fun o => wf_op (length (v_returns st)) o /\ forall t no nr, o <> OSet t no nr) h ->
+  (i < length (v_returns st))%nat ->
+  nth i (v_returns st) 0 == disc (p_gamma p) acc ->
+  nth i (v_returns (vn_run update_red Qred p st h)) 0 == disc (p_gamma p) (rewards_since i acc h).
+Proof. apply vn_returns_closed_form_red. exact Qred_correct. Qed.
